@@ -1,0 +1,15 @@
+//! Verification hooks (`--cfg folo_verif` only): never compiled into normal builds.
+
+use std::num::NonZero;
+use std::sync::atomic::{AtomicUsize, Ordering};
+
+static CAPACITY_OVERRIDE: AtomicUsize = AtomicUsize::new(0);
+
+/// Forces every slab layout calculated from now on to use `capacity` slots (0 = no override).
+pub fn set_capacity_override(capacity: usize) {
+    CAPACITY_OVERRIDE.store(capacity, Ordering::SeqCst);
+}
+
+pub(crate) fn capacity_override() -> Option<NonZero<usize>> {
+    NonZero::new(CAPACITY_OVERRIDE.load(Ordering::SeqCst))
+}
